@@ -93,7 +93,8 @@ def chain_prog(depth, rk, sw, hks, he, followups=True, pre=None, levels=None, se
             body += wrap_site(raise_stmt, sw, rk)
             body += [mark("F%d-dead" % lvl), ret(num(lvl))]
         else:
-            body += [decl("R%d" % lvl, call("F%d" % (lvl + 1), var("L%d" % lvl))), disp(s("F%d-out" % lvl), var("R%d" % lvl)),
+            # (after the call the caller reads its OWN input again - every method of the chain calls its input X)
+            body += [decl("R%d" % lvl, call("F%d" % (lvl + 1), var("L%d" % lvl))), disp(s("F%d-out" % lvl), var("R%d" % lvl), var("X"), var("L%d" % lvl)),
                      ret(bin_("add", var("R%d" % lvl), num(1)))]
         funcs.append(func("F%d" % lvl, ["X"], body, handler(lvl, hks[lvl], rk, he), mod=lv[lvl - 1]))
     main = [decl("M", num(5)), mark("start")]
